@@ -22,9 +22,9 @@ fn iso3(t: &Value) -> Iso3 {
     Iso3::from_parts(Translation3::new(tr[0] as f64, tr[1] as f64, tr[2] as f64), rot)
 }
 
-fn flatten(q: &mut Q, verts: &[Point3], faces: &[[u32; 3]], t: &Iso3, s: f64) -> Value {
-    // the posed disk scaled by the power of two s; uv is reported in lattice units
-    let moved: Vec<Point3> = verts.iter().map(|p| Point3::from((t * p).coords * s)).collect();
+fn flatten(q: &mut Q, verts: &[Point3], faces: &[[u32; 3]], t: &Iso3, s: f64, far: &parry3d_f64::na::Vector3<f64>) -> Value {
+    // the posed disk, carried `far` lattice units further from the origin, scaled by the power of two s; uv is reported in lattice units
+    let moved: Vec<Point3> = verts.iter().map(|p| Point3::from(((t * p).coords + far) * s)).collect();
     let mesh = Mesh::new(moved, faces.to_vec(), false);
     let edges = match mesh.calc_edges() { Ok(e) => e, Err(_) => return json!({"ok": false, "stage": "edges", "uv": []}) };
     match edges.boundary_first_flatten() {
@@ -49,8 +49,9 @@ pub fn exec(rec: &Value, _st: &mut State) -> Value {
         "flatten" => {
             let t2 = iso3(&rec["T2"]);
             let s = (2.0f64).powi(gi_or(rec, "sc", 0) as i32);
-            let a = flatten(&mut q, &verts, &faces, &t, s);
-            let b = flatten(&mut q, &verts, &faces, &t2, s);
+            let far = match rec.get("far") { Some(_) => { let f = gvi(rec, "far"); parry3d_f64::na::Vector3::new(f[0] as f64, f[1] as f64, f[2] as f64) } None => parry3d_f64::na::Vector3::zeros() };
+            let a = flatten(&mut q, &verts, &faces, &t, s, &far);
+            let b = flatten(&mut q, &verts, &faces, &t2, s, &(-far));
             json!({"a": a, "b": b})
         }
         "uv" => {
